@@ -200,6 +200,56 @@ macro_rules! transcript_buf {
     }};
 }
 
+/// methods only the concrete families have (lines start with `x.`; stripped before comparing with
+/// the typed families): the generic conversions, the platform conversions, the capacity operations
+macro_rules! extras_bytes {
+    ($t:ident, $p:expr, $buf:expr) => {{
+        let p = $p;
+        $t.push(format!("x.with_encoding<unix> {}", hex(p.with_encoding::<UnixEncoding>().as_bytes())));
+        $t.push(format!("x.with_encoding<windows> {}", hex(p.with_encoding::<WindowsEncoding>().as_bytes())));
+        $t.push(format!("x.with_encoding_checked<unix> {:?}", p.with_encoding_checked::<UnixEncoding>().map(|x| hex(x.as_bytes()))));
+        $t.push(format!("x.with_encoding_checked<windows> {:?}", p.with_encoding_checked::<WindowsEncoding>().map(|x| hex(x.as_bytes()))));
+        $t.push(format!("x.with_platform_encoding {} {:?}", hex(p.with_platform_encoding().as_bytes()), p.with_platform_encoding_checked().map(|x| hex(x.as_bytes()))));
+        $t.push(format!("x.has_platform_encoding {}", p.has_platform_encoding()));
+        let mut b = $buf;
+        let before = b.as_bytes().to_vec();
+        b.reserve(7);
+        b.reserve_exact(3);
+        let r1 = b.try_reserve(5).is_ok();
+        let r2 = b.try_reserve_exact(2).is_ok();
+        let cap_ok = b.capacity() >= before.len();
+        b.shrink_to(1);
+        b.shrink_to_fit();
+        $t.push(format!("x.capacity-ops {} {} {} {}", r1, r2, cap_ok, if b.as_bytes() == before.as_slice() { "unchanged".to_string() } else { hex(b.as_bytes()) }));
+    }};
+}
+macro_rules! extras_utf8 {
+    ($t:ident, $p:expr, $buf:expr) => {{
+        let p = $p;
+        $t.push(format!("x.with_encoding<unix> {}", hex(&p.with_encoding::<Utf8UnixEncoding>().tob())));
+        $t.push(format!("x.with_encoding<windows> {}", hex(&p.with_encoding::<Utf8WindowsEncoding>().tob())));
+        $t.push(format!("x.with_encoding_checked<unix> {:?}", p.with_encoding_checked::<Utf8UnixEncoding>().map(|x| hex(&x.tob()))));
+        $t.push(format!("x.with_encoding_checked<windows> {:?}", p.with_encoding_checked::<Utf8WindowsEncoding>().map(|x| hex(&x.tob()))));
+        $t.push(format!("x.with_platform_encoding {} {:?}", hex(&p.with_platform_encoding().tob()), p.with_platform_encoding_checked().map(|x| hex(&x.tob()))));
+        $t.push(format!("x.has_platform_encoding {}", p.has_platform_encoding()));
+        let mut b = $buf;
+        let before = b.as_str().as_bytes().to_vec();
+        b.reserve(7);
+        b.reserve_exact(3);
+        let r1 = b.try_reserve(5).is_ok();
+        let r2 = b.try_reserve_exact(2).is_ok();
+        let cap_ok = b.capacity() >= before.len();
+        b.shrink_to(1);
+        b.shrink_to_fit();
+        $t.push(format!("x.capacity-ops {} {} {} {}", r1, r2, cap_ok, if b.as_str().as_bytes() == before.as_slice() { "unchanged".to_string() } else { hex(b.as_str().as_bytes()) }));
+    }};
+}
+
+/// a transcript without the concrete-only `x.` lines
+fn no_x(v: &[String]) -> Vec<String> {
+    v.iter().filter(|l| !l.starts_with("x.")).cloned().collect()
+}
+
 fn catch(f: impl FnOnce() -> Vec<String> + std::panic::UnwindSafe) -> Vec<String> {
     match crate::util::quiet_catch(f) {
         Ok(v) => v,
@@ -300,6 +350,7 @@ fn t_bytes(win: bool, s: &[u8], a: &[u8]) -> Vec<String> {
             t.push(format!("to-windows {} {:?}", hex(p.with_windows_encoding().as_bytes()), p.with_windows_encoding_checked().map(|x| hex(x.as_bytes()))));
             let c = p.components();
             t.push(format!("wq {} {} {} {} {}", c.has_prefix(), c.has_any_verbatim_prefix(), c.has_physical_root(), c.has_implicit_root(), c.prefix().map(|x| hex(x.as_bytes())).unwrap_or_default()));
+            extras_bytes!(t, p, WindowsPathBuf::from(s.as_slice()));
         } else {
             transcript_path!(t, UnixPath::new(&s), a.as_slice(), win);
             transcript_buf!(t, UnixPathBuf::from(s.as_slice()), a.as_slice(), win);
@@ -312,6 +363,7 @@ fn t_bytes(win: bool, s: &[u8], a: &[u8]) -> Vec<String> {
             t.push(format!("components-alt {}", alt(p.components()).into_iter().map(|c| hex(&c.as_ref_bytes())).collect::<Vec<_>>().join(",")));
             t.push(format!("to-unix {} {:?}", hex(p.with_unix_encoding().as_bytes()), p.with_unix_encoding_checked().map(|x| hex(x.as_bytes()))));
             t.push(format!("to-windows {} {:?}", hex(p.with_windows_encoding().as_bytes()), p.with_windows_encoding_checked().map(|x| hex(x.as_bytes()))));
+            extras_bytes!(t, p, UnixPathBuf::from(s.as_slice()));
         }
         t
     })
@@ -335,6 +387,7 @@ fn t_utf8(win: bool, s: &str, a: &str) -> Vec<String> {
             t.push(format!("to-windows {} {:?}", hex(&p.with_windows_encoding().tob()), p.with_windows_encoding_checked().map(|x| hex(&x.tob()))));
             let c = p.components();
             t.push(format!("wq {} {} {} {} {}", c.has_prefix(), c.has_any_verbatim_prefix(), c.has_physical_root(), c.has_implicit_root(), c.prefix().map(|x| hex(&x.as_str().tob())).unwrap_or_default()));
+            extras_utf8!(t, p, Utf8WindowsPathBuf::from(s.as_str()));
         } else {
             transcript_path!(t, Utf8UnixPath::new(&s), a.as_str(), win);
             transcript_buf!(t, Utf8UnixPathBuf::from(s.as_str()), a.as_str(), win);
@@ -347,6 +400,7 @@ fn t_utf8(win: bool, s: &str, a: &str) -> Vec<String> {
             t.push(format!("components-alt {}", alt(p.components()).into_iter().map(|c| hex(&c.as_ref_bytes())).collect::<Vec<_>>().join(",")));
             t.push(format!("to-unix {} {:?}", hex(&p.with_unix_encoding().tob()), p.with_unix_encoding_checked().map(|x| hex(&x.tob()))));
             t.push(format!("to-windows {} {:?}", hex(&p.with_windows_encoding().tob()), p.with_windows_encoding_checked().map(|x| hex(&x.tob()))));
+            extras_utf8!(t, p, Utf8UnixPathBuf::from(s.as_str()));
         }
         t
     })
@@ -665,13 +719,41 @@ pub fn c15(ctx: &mut Ctx, tier: &str, seed: u64) {
                 ctx.fail("derive-rule-utf8", None, format!("derive {}", hex(s)), String::new());
             }
         }
+        // accessors that exist on the typed component only
+        for win in [false, true] {
+            let tp = if win { TypedPath::windows(s) } else { TypedPath::unix(s) };
+            for c in tp.components() {
+                let want: Option<&[u8]> = match &c {
+                    TypedComponent::Unix(UnixComponent::Normal(x)) => Some(*x),
+                    TypedComponent::Windows(WindowsComponent::Normal(x)) => Some(*x),
+                    _ => None,
+                };
+                ctx.evals += 1;
+                if c.as_normal_bytes() != want || c.is_normal() != want.is_some() {
+                    ctx.fail("typed-component-accessors", None, format!("comps {} {}", gen::e(win), hex(s)), format!("as_normal_bytes {:?}", c.as_normal_bytes().map(|x| lossy(x))));
+                }
+            }
+            if let Ok(st) = std::str::from_utf8(s) {
+                let up = if win { Utf8TypedPath::windows(st) } else { Utf8TypedPath::unix(st) };
+                for c in up.components() {
+                    let want: Option<&str> = match &c {
+                        Utf8TypedComponent::Unix(Utf8UnixComponent::Normal(x)) => Some(*x),
+                        Utf8TypedComponent::Windows(Utf8WindowsComponent::Normal(x)) => Some(*x),
+                        _ => None,
+                    };
+                    if c.as_normal_str() != want || c.is_normal() != want.is_some() {
+                        ctx.fail("typed-component-accessors", None, format!("comps {} {}", gen::e(win), hex(s)), format!("as_normal_str {:?}", c.as_normal_str()));
+                    }
+                }
+            }
+        }
         for win in [false, true] {
             let e = gen::e(win);
             for (i, a) in args.iter().enumerate() {
                 if !t && i >= 5 && (s.len() + i) % 3 != 0 {
                     continue;
                 }
-                let tb = t_bytes(win, s, a);
+                let tb = no_x(&t_bytes(win, s, a));
                 let tt = t_typed(win, s, a);
                 ctx.case(comps(win, s).len() >= 2, (win, s, i));
                 if tb != tt || tt.iter().any(|l| l.contains("!VARIANT") || l == "PANIC") {
